@@ -115,7 +115,7 @@ class Bw64Reader(object):
         if(dataChunkOffset + frameOffset < chunkIndex.position.data):
             self._buffer.seek(chunkIndex.position.data)
         elif(dataChunkOffset + frameOffset > chunkIndex.position.end):
-            self._buffer.seek(chunkIndex.end)
+            self._buffer.seek(chunkIndex.position.end)
         else:
             self._buffer.seek(dataChunkOffset + frameOffset)
 
